@@ -13,7 +13,9 @@ RULE = (
     "9999,10000,10001 (thorough: also 12000, PDB 99999; SDF capped at its 999-atom columns) then random 1-40; elements cycle "
     "through Z=1..118; magnitudes from the classes {0, -0, last digit only, smallest/largest value with k integer digits for "
     "every k the column holds, wider than the column}; titles empty / printable ASCII of length 1..200; bonds 0..many of "
-    "every type (PDB: both orders, repeated, up to >4 partners per atom); optional attributes present/absent. Cube: grid "
+    "every type (PDB: both orders, repeated, up to >4 partners per atom; PDB titles and COMPND of 1, 2, 9, 10, 11, 12, 30, 101 "
+    "lines incl. empty lines; MOL2: atom types / charges present or absent, bond types inside and outside the table); "
+    "optional attributes present/absent. Cube: grid "
     "shapes cycle through row lengths 1,5,6,7,11,12,13,18,19,25 (row%6 = 0..5), 1..n rows, an empty grid, then random; "
     "1-11 atoms incl. zero core charges; values with exponents 0,+-1,+-9,+-10,+-99 and three digits. FCHK fields: 1-7 fields "
     "of the four kinds, array lengths cycling through 0,1,2,4,5,6,7,9..13,17..19,24..26,29..31,35..37,59..61,100, integers "
@@ -23,7 +25,10 @@ RULE = (
     "dump:<fmt> compares the bytes of the real writer (iodata.api.dump_one; fchk-fields: the four _dump_* functions; "
     "dump-loop:cube: _write_cube_data against the transcribed counter loop) with the model's, load:<fmt> the re-quantised "
     "result of the real reader on those bytes with the model's load; shuffles:fchk compares tril / _triangle_to_dense / the "
-    "quadrupole order with numpy and the real code. search:<fmt> evaluates load_one(dump_one(x)) against x attribute by "
+    "quadrupole order with numpy and the real code; index-loop/index-fill:fcidump the writer's canonical quadruples for "
+    "1..7 orbitals and the array the real reader builds from arbitrary (also non-canonical, repeated) lines; "
+    "grouping/direct-coordinates:poscar the written atom order, element/count lines and inv(cell)^T r for random element "
+    "lists (1-1001 atoms, 1-20 elements) and integer cells. search:<fmt> evaluates load_one(dump_one(x)) against x attribute by "
     "attribute on unquantised random objects (XYZ, SDF, PDB, MOL2, Cube, FCIDUMP, POSCAR, FCHK with s/p/sp/d shells, "
     "restricted/unrestricted orbitals and all optional attributes; tolerance: half a unit of the last printed digit). "
     "non-trivial = distinct request"
@@ -35,6 +40,8 @@ TRUSTED = [
     "harness/vh/props/_fchk.py expected_fields(): which labels iodata's FCHK dump_one writes for an object with a one-primitive "
     "basis and one orbital, in which order (structure-level knowledge; values come from the quantised object)",
     "harness/vh/props/_cube.py, _fchk.py: exact (Fraction) re-quantisation of loaded doubles to mantissa/exponent pairs",
+    "harness/vh/props/_mol2.py, _fcidump.py, _poscar.py: object construction, parsing of the index columns / element and count "
+    "lines of the real writer's output, recovery of the written atom order from tagged coordinates",
 ]
 ASSUMPTIONS = [
     "text-mode I/O: files contain printable ASCII and '\\n' only (universal-newline translation is the identity)",
@@ -51,7 +58,7 @@ ASSUMPTIONS = [
 ]
 TIME_LIMIT = {"quick": 1200, "thorough": 7200}
 
-RW = ["xyz", "sdf", "pdb"]  # + cube, fchk (own flows)
+RW = ["xyz", "sdf", "pdb"]  # + mol2, cube, fchk fields, fcidump/poscar structure layers (own flows)
 
 
 def correspond(ctx):
